@@ -1212,6 +1212,14 @@ class C12(Prop):
         for _ in range(ctx.n(60, 600)):
             m = G.gen_response(rng, 0.0, framing="chunked")[0]
             ctx.add("resppre", [hx(rng.choice([b"STALE!", b"x", b"0123456789" * 3])), dels(rng.choice(G.schedules(rng, m, 2)))])
+        # trailer sections of 31 .. 40 and 100 fields (some of them framing fields): every other one is appended
+        for nt in (31, 32, 33, 34, 40, 100):
+            H = [(b"Host", b"a"), (b"Transfer-Encoding", b"chunked")]
+            T = [(b"X-T%d" % i, b"v%d" % i) if i % 7 else rng.choice([(b"Content-Length", b"9"), (b"trailer", b"z"), (b"X-Seven", b"7")]) for i in range(nt)]
+            payload = b"hello"
+            s = b"HTTP/1.1 200 OK\r\n" + G.block([n + b": " + v for n, v in H]) + b"5\r\nhello\r\n0\r\n" + G.block([n + b": " + v for n, v in T])
+            ctx.add("resp", [dels([s])], H=H, T=T, payload=payload)
+            ctx.add("resp", [dels([s[:60], s[60:200], s[200:]])], H=H, T=T, payload=payload)
         for _ in range(ctx.n(1200, 12000)):
             H = []
             for _ in range(rng.randint(0, 4)):
@@ -1583,6 +1591,36 @@ class C15(Prop):
                 for _ in range(depth - 1):
                     data = G.CODERS[fmt](rng, data)
                 ctx.add("dec", [hdrs_spec([("Content-Encoding", ", ".join([tok] * depth))]), hx(data)], plain=plain, dmg="integrity", fmt=fmt)
+        # gzip bodies that carry a complete gzip member further in (a stored member whose content is a .gz, a member with
+        # one in its FEXTRA field, two members one after the other): with the signature at the FRONT altered nothing
+        # further in may be taken for the body
+        inner = G.gz(b"contents of notes.txt.gz", 6)
+        outers = [G.gz(b"prefix " + inner + b" suffix", 0), G.gz(b"payload", 6, extra=inner[:200]), G.gz(b"first", 6) + G.gz(b"second", 6)]
+        for data in outers:
+            hs = [("Content-Encoding", "gzip")]
+            for i in (0, 1):
+                for delta in (1, 0x80, 0x10, 0xff):
+                    d2 = data[:i] + bytes([(data[i] + delta) % 256]) + data[i + 1:]
+                    ctx.add("dec", [hdrs_spec(hs), hx(d2)], plain=b"", dmg="integrity", fmt="gzip")
+            for cut in sorted({1, 2, 9, len(data) // 2, len(data) - 9, len(data) - 1}):
+                if 0 < cut < len(data) and data is not outers[2]:
+                    ctx.add("dec", [hdrs_spec(hs), hx(data[:cut])], plain=b"", dmg="trunc", fmt="gzip")
+        # bare deflate and zlib streams produced with a sync flush after every write, cut exactly behind each flush
+        # marker (00 00 ff ff) and everywhere near it: a stream that was never finished is not a body
+        import zlib as _zz
+        for lvl in (0, 1, 6):
+            for wbits, fmt in ((-15, "raw"), (15, "zlib")):
+                co = _zz.compressobj(lvl, _zz.DEFLATED, wbits)
+                stream = b""
+                marks = []
+                for piece in (b"first part of the text, ", b"second part, " * 3, b"third."):
+                    stream += co.compress(piece) + co.flush(_zz.Z_SYNC_FLUSH)
+                    marks.append(len(stream))
+                stream += co.flush()
+                for m in marks:
+                    for cut in (m - 1, m, m + 1):
+                        if 0 < cut < len(stream):
+                            ctx.add("dec", [hdrs_spec([("Content-Encoding", "deflate")]), hx(stream[:cut])], plain=b"", dmg="trunc", fmt=fmt)
         # the same headers (entity tag included) and the same coded length twice on one thread: first intact,
         # then damaged -- nothing remembered from the first call may stand in for decoding the second body
         for _ in range(ctx.n(40, 300)):
@@ -1830,6 +1868,9 @@ class C17(Prop):
             for i in range(len(d) + 1):
                 for c in (b"\t", b"\x0b", b"\x0c", b"\r", b"\n", b"\xc2\x85", b"\xc2\xa0", b"\xe3\x80\x80", b"+", b"\x00"):
                     strings.append(d[:i] + c + d[i:])
+        for lig in ("\ufb00", "\ufb01", "\ufb03", "\u017f", "\u212a", "\u0131", "\u00df", "\u24b6", "\uff21", "\uff41", "\U0001d7d8"):
+            lb = lig.encode()
+            strings += [lb, b"1" + lb, lb + b"0", lb + b";ext", b"a" + lb + b"b"]
         for z in (19, 20, 21, 22, 23, 30, 40):
             strings += [b"0" * z + b"5", b"0" * z + b"10", b"0" * z, b"0" * (z - 1) + b"5x", b"0" * z + b"a"]
         def liberal(t, base):
